@@ -82,12 +82,18 @@ def embed_case(ctx, case, cg, aa):
             if want.get(n) != have:
                 ctx.disagree('embed', slim, f'node {n}: stored position {have}, model routes {want.get(n)}')
                 break
-    # oracle: bonded atoms at bonding distance
+    # oracle: every atom carries the coordinates RDKit computed for it.  Atom i of the RDKit molecule is the
+    # i-th node in iteration order (that is how networkx_to_rdkit numbers them), so every bond of the graph must
+    # have exactly the length RDKit gave it; a misrouted position shows as a bond of a different length.  (Plain
+    # plausibility bounds are not used: UFF geometries of odd molecules contain 0.57 Å N-H and 2.7 Å I-I bonds.)
+    index = {n: i for i, n in enumerate(order)}
     for a, b in aa.edges:
         d = float(np.linalg.norm(aa.nodes[a]['position'] - aa.nodes[b]['position']))
-        if not (0.7 <= d <= 2.3):
-            ctx.fail(slim, f'bonded atoms {a}-{b} ({aa.nodes[a]["element"]}-{aa.nodes[b]["element"]}) are {d:.2f} Å apart after embedding '
-                           f'(node iteration order {order[:10]}…)')
+        d_rd = float(np.linalg.norm(np.array(rd_pos[index[a]]) - np.array(rd_pos[index[b]])))
+        bonded = rd.GetBondBetweenAtoms(index[a], index[b]) is not None
+        if abs(d - d_rd) > 1e-6 or not bonded:
+            ctx.fail(slim, f'bonded atoms {a}-{b} ({aa.nodes[a]["element"]}-{aa.nodes[b]["element"]}) are {d:.2f} Å apart after embedding, '
+                           f'RDKit placed that bond at {d_rd:.2f} Å (node iteration order {order[:10]}…)')
             break
     # beads
     with lib.quiet():
